@@ -248,9 +248,7 @@ def gen_refs(rng, elements):
     return {'references': refs}
 
 
-def draw_units(rng, tier, comp, n_override=None):
-    if n_override == 'ALL':
-        return 'ALL'
+def draw_units(rng, tier, comp):
     k = 4 if tier == 'thorough' else 1
     us = rng.sample(MOLAR, min(len(MOLAR), 2 * k)) + rng.sample(PER_MOLECULE, 1 if k == 1 else 3)
     if comp:
@@ -361,7 +359,8 @@ def gen_case(rng, tier, kind=None, units=None, force_opts=None, **fix):
     nts = len(r['ts']) if r['ts'] else 0
     names = sorted(r['species'])
     spec['T'] = S.rnd(rng, 250, 3500, 2)
-    spec['state'] = rng.choice(['reactants', 'products'] + (['ts', 'transition state', 'transition_state'] if nts else []))
+    spec['state'] = rng.choice(['reactants', 'products'] +
+                               (['ts', 'transition state', 'transition_state'] if nts else []))
     spec['cov'] = None
     if fix.get('cov', rng.random() < 0.35):
         on = rng.choice(names)
@@ -641,6 +640,15 @@ def blame(subj, g, T, opts, unit, ctx):
     return '+'.join(culprits) if culprits else '+'.join(present)
 
 
+def r_ok(c, base):
+    """is the unit string accepted by pMuTT's table at all? (a rejected one cannot be driven further)"""
+    try:
+        c.R(base)
+        return True
+    except Exception:                                            # noqa
+        return False
+
+
 def t_kind(T):
     return 'default' if T is None else ('array' if isinstance(T, list) else 'scalar')
 
@@ -660,17 +668,22 @@ def run_case(spec, ctx):
     x = ctx.extra
     # ---- the table itself: R(u) of pMuTT against the SI value
     from pmutt import constants as c
-    for u in units:
-        fam, base, mass = unit_info(u)
+    table_bad = set()
+    for base in sorted(set(unit_info(u)[1] for u in units)):
+        fam = unit_info(base)[0]
         m = {'class': 'constants.R', 'getter': 'R', 'unit_family': fam, 'clause': 'U1', 'unit': base}
         r = ctx.call('U1', m, c.R, base)
-        if r is not core.NOVALUE:
-            e = abs(r / r_si(base) - 1.0)
-            if e <= TOL_R:
-                ctx.held('U1')
-                ctx.max_err['U1_R_table_vs_SI'] = max(e, ctx.max_err.get('U1_R_table_vs_SI', 0.0))
-            else:
-                ctx.fail('U1', m, err=e, tol=TOL_R, got=r, want=r_si(base))
+        if r is core.NOVALUE:
+            table_bad.add(base)
+            continue
+        e = abs(r / r_si(base) - 1.0)
+        if e <= TOL_R:
+            ctx.held('U1')
+            ctx.max_err['U1_R_table_vs_SI'] = max(e, ctx.max_err.get('U1_R_table_vs_SI', 0.0))
+        else:
+            table_bad.add(base)
+            ctx.fail('U1', m, err=e, tol=TOL_R, got=r, want=r_si(base))
+    units = [u for u in units if unit_info(u)[1] not in table_bad or r_ok(c, unit_info(u)[1])]
     for g in subj.getters:
         if not subj.applicable(g):
             continue
@@ -700,8 +713,8 @@ def run_case(spec, ctx):
                 if fam not in first_fail_label:
                     first_fail_label[fam] = blame(subj, g, T, opts, u, ctx)
                 ctx.fail('U1', dict(base_mech, unit_family=fam, option=first_fail_label[fam], clause='U1',
-                                    exc=type(d).__name__), message=str(d)[:300], where=core._tb_where(d), unit=u,
-                         options=opts)
+                                    exc=type(d).__name__), message=str(d)[:300], where=core._tb_where(d),
+                         unit=call_unit(g, u), options=opts)
                 continue
             want = ev.want(fp)
             e = rel_err(ctx, d, want)
@@ -715,7 +728,7 @@ def run_case(spec, ctx):
                 if fam not in first_fail_label:
                     first_fail_label[fam] = blame(subj, g, T, opts, u, ctx)
                 ctx.fail('U1', dict(base_mech, unit_family=fam, option=first_fail_label[fam], clause='U1'),
-                         err=e, tol=TOL1, got=d, want=want, unit=u, options=opts, dimensionless=ev.w)
+                         err=e, tol=TOL1, got=d, want=want, unit=call_unit(g, u), options=opts, dimensionless=ev.w)
                 got[u] = (d, fp, fs)
         # ---- U2: pairs of unit strings (consecutive in the drawn order, which is shuffled)
         us = list(got)
@@ -723,10 +736,14 @@ def run_case(spec, ctx):
             d1, p1, s1 = got[u1]
             d2, p2, s2 = got[u2]
             f1, f2 = unit_info(u1)[0], unit_info(u2)[0]
-            m = dict(base_mech, unit_family=f1 if f1 == f2 else '%s|%s' % tuple(sorted((f1, f2))),
-                     option='+'.join(present) or 'none', clause='U2')
+            # (a unit conversion does not depend on options or on T: they are not part of the mechanism)
+            m = {'class': subj.cls, 'getter': g['name'], 'clause': 'U2',
+                 'unit_family': f1 if f1 == f2 else '%s|%s' % tuple(sorted((f1, f2)))}
             e = rel_err(ctx, d1 * p2, d2 * p1)
-            e_si = rel_err(ctx, d1 * s2, d2 * s1)
+            if unit_info(u1)[1] in table_bad or unit_info(u2)[1] in table_bad:
+                e_si = 0.0                                 # table entry already reported under constants.R
+            else:
+                e_si = rel_err(ctx, d1 * s2, d2 * s1)
             if e <= TOL1 and e_si <= 2 * TOL_R:
                 ctx.held('U2')
                 if e > ctx.max_err.get('U2', 0.0):
@@ -739,7 +756,8 @@ def run_case(spec, ctx):
         if units and T is not None:
             u = units[0]
             fam, fp, fs = factor(u, subj.comp)
-            for o in present:
+            # (wrong without any option: reported by U1, the same defect is not asked again)
+            for o in ([] if first_fail_label.get(fam) == 'none' else present):
                 rest = {k: v for k, v in opts.items() if k != o}
                 ev0 = Eval(subj, g, T, rest, ctx)
                 if ev0.twin_exc is not None or not ev0.finite:
@@ -751,7 +769,8 @@ def run_case(spec, ctx):
                 d1 = got[u][0]
                 s0, d0 = ev0.dim(u)
                 if s0 == 'exc':
-                    ctx.fail('U3', dict(m, exc=type(d0).__name__), message=str(d0)[:300], unit=u, options=rest)
+                    ctx.fail('U3', dict(m, exc=type(d0).__name__), message=str(d0)[:300], unit=call_unit(g, u),
+                             options=rest)
                     continue
                 w1, w0 = ev.want(fp), ev0.want(fp)
                 if np.shape(d1) != np.shape(d0):          # verbose: per-mode contributions vs their sum
@@ -770,7 +789,7 @@ def run_case(spec, ctx):
                         x.setdefault('U3_moved_by', {})
                         x['U3_moved_by'][o] = x['U3_moved_by'].get(o, 0) + 1
                 else:
-                    ctx.fail('U3', m, err=e, tol=TOL3, unit=u, moved_dimensionless=moved,
+                    ctx.fail('U3', m, err=e, tol=TOL3, unit=call_unit(g, u), moved_dimensionless=moved,
                              delta_dimensional=d1 - d0, delta_expected=w1 - w0, options=opts)
         # ---- documented default temperature (energies of modes / StatMech / reaction E_state)
         # (a getter that already failed with an explicit T is not asked again: same defect)
@@ -779,14 +798,16 @@ def run_case(spec, ctx):
             if evd.twin_exc is None and evd.finite:
                 u = units[-1]
                 fam, fp, fs = factor(u, subj.comp)
-                m = dict(base_mech, T_kind='default', unit_family=fam, option='+'.join(present) or 'none', clause='U1')
+                m = dict(base_mech, T_kind='default', unit_family=fam, option='+'.join(present) or 'none',
+                         clause='U1')
                 st, d = evd.dim(u)
                 ctx.cls('T:default')
                 if st == 'exc':
-                    ctx.fail('U1', dict(m, exc=type(d).__name__), message=str(d)[:300], unit=u, options=opts)
+                    ctx.fail('U1', dict(m, exc=type(d).__name__), message=str(d)[:300], unit=call_unit(g, u),
+                             options=opts)
                 else:
                     ctx.close('U1', d, evd.want(fp), TOL1, m, scale=np.maximum(np.abs(evd.want(fp)), 1e-300),
-                              unit=u, options=opts)
+                              unit=call_unit(g, u), options=opts)
 
 
 def default_T_ok(subj, g):
